@@ -1837,6 +1837,8 @@ class Exec(Exec, _Expr, _Calls, _Contracts, _Stmts, _Loops):
         for label, f in pre:
             st.assume(f)
         self.pre = [f for _, f in pre]
+        if proc.on_entry:
+            proc.on_entry(self, st)
         results = self.run(self.fsrc.body(), st)
         results += self.raised
         self.raised = []
